@@ -15,13 +15,13 @@ Definition dproj (t : string) : list string :=
   if String.eqb t "call:$r.SecretSource.RADIUSSecret" then ["secret"]
   else if String.eqb t "call:IsAuthenticRequest" then ["verify"]
   else if String.eqb t "call:Parse" then ["parse"]
-  else if String.eqb t "call:requestsLock.Lock" then ["rlock"]
-  else if String.eqb t "call:requestsLock.Unlock" then ["runlock"]
-  else if String.eqb t "set:requests[]" then ["insert"]
-  else if String.eqb t "delete:requests" then ["delete"]
+  else if String.eqb t "call:(var sync.Mutex).Lock" then ["rlock"]
+  else if String.eqb t "call:(var sync.Mutex).Unlock" then ["runlock"]
+  else if String.eqb t "set:(val map[requestKey]struct{}{})[]" then ["insert"]
+  else if String.eqb t "delete:(val map[requestKey]struct{}{})" then ["delete"]
   else if String.eqb t "call:$r.Handler.ServeRADIUS" then ["handler"]
-  else if String.prefix "set:requests" t then [t]
-  else if String.prefix "call:requestsLock." t then [t]
+  else if String.prefix "set:(val map[" t then [t]
+  else if String.prefix "call:(var sync.Mutex)." t then [t]
   else if String.eqb t "else{" then ["unsupported:else"]
   else if String.eqb t "switch{" then ["unsupported:switch"]
   else [].
@@ -67,4 +67,17 @@ Lemma dispatch_order_holds : dispatch_order.
 Proof.
   unfold dispatch_order.
   repeat match goal with |- _ /\ _ => split end; vm_compute; reflexivity.
+Qed.
+
+(* ---- completeness: there is no other path through the goroutine ---- *)
+Definition dispatch_traces : list (list string) :=
+  [ ["secret"]; ["secret"; "verify"]; ["secret"; "verify"; "parse"];
+    ["secret"; "verify"; "parse"; "rlock"; "runlock"];
+    ["secret"; "verify"; "parse"; "rlock"; "insert"; "runlock"; "handler"; "rlock"; "delete"; "runlock"] ].
+Definition dispatch_paths_complete : Prop :=
+  forall ds, List.length ds = 5 -> In (dpath ds) dispatch_traces.
+Lemma dispatch_paths_complete_holds : dispatch_paths_complete.
+Proof.
+  unfold dispatch_paths_complete, dpath; intros ds Hlen;
+    (apply paths_within_spec with (n := List.length ds); [rewrite Hlen; vm_compute; reflexivity | apply all_lists_complete; reflexivity]).
 Qed.
